@@ -10,7 +10,7 @@ import (
 )
 
 // TextAlphabet: one representative of every escaping / UTF-8 class.
-var TextAlphabet = []string{"a", `"`, `\`, "\n", "\t", "\b", "\f", "\r", "\x00", "\x1f", "\x7f", "<", "&", "é", " ", "😀", "\xff", "\xc0", "\xed\xa0\x80", "\xc3", "\x80"}
+var TextAlphabet = []string{"a", `"`, `\`, "\n", "\t", "\b", "\f", "\r", "\x00", "\x1f", "\x7f", "<", "&", "é", " ", "😀", "\xff", "\xc0", "\xed\xa0\x80", "\xc3", "\x80", "\xf0\x9f\x98"}
 
 // Text classes used in windows.
 var TextClasses = []string{"v", "", `a"b\c`, "\n\x00\x1f", "é😀 ", "\xff\xc3", "<&\x7f"}
@@ -60,7 +60,7 @@ func ClassValues(m string) []interface{} {
 	case "Strs":
 		return []interface{}{[]string(nil), []string{}, []string{"a"}, []string{`a"`, "", "\xff"}}
 	case "Stringer":
-		return []interface{}{nil, Str("s\n"), (*PStr)(nil), &PStr{"p"}}
+		return []interface{}{nil, Str("s\n"), (*PStr)(nil), &PStr{"p"}, Str("\xff\"é\xc3")}
 	case "Stringers":
 		return []interface{}{[]fmt.Stringer(nil), []fmt.Stringer{}, []fmt.Stringer{Str("a"), nil, &PStr{`"`}}}
 	case "Bytes":
@@ -70,7 +70,7 @@ func ClassValues(m string) []interface{} {
 	case "RawJSON":
 		return []interface{}{[]byte(`1`), []byte(`"s"`), []byte(`{"a":[1,{"b":null}]}`), []byte(`[]`), []byte(`null`), []byte(`{}`)}
 	case "RawCBOR":
-		return []interface{}{[]byte(nil), []byte{}, []byte{0x01}, []byte{0x83, 1, 2, 3}}
+		return []interface{}{[]byte(nil), []byte{}, []byte{0x01}, []byte{0x83, 1, 2, 3}, []byte{0x18, 0xff}, []byte{0x82, 0x01, 0xf6}}
 	case "AnErr", "Err":
 		return []interface{}{nil, errors.New("e"), errors.New("a\"\n\xff"), (*PErr)(nil), ErrObj{"m"}, &PErr{"p"}}
 	case "Errs":
@@ -146,11 +146,11 @@ func ClassValues(m string) []interface{} {
 			B string "q\\r\n\x01é"
 		}{"b"}, map[string][]*int(nil)}
 	case "IPAddr":
-		return []interface{}{net.IP(nil), IPv4, IPv4m, IPv6}
+		return []interface{}{net.IP(nil), IPv4, IPv4m, IPv6, net.IP{1, 2, 3}}
 	case "IPPrefix":
-		return []interface{}{Net4, Net6, net.IPNet{}}
+		return []interface{}{Net4, Net6, net.IPNet{}, net.IPNet{IP: net.IP{10, 1, 2, 3}, Mask: net.IPMask{255, 0, 255, 0}}}
 	case "MACAddr":
-		return []interface{}{net.HardwareAddr(nil), Mac6, Mac8}
+		return []interface{}{net.HardwareAddr(nil), Mac6, Mac8, net.HardwareAddr{0, 1, 2, 3, 4, 5, 6, 7, 8, 9, 10, 11, 12, 13, 14, 15, 16, 17, 18, 19}}
 	}
 	return nil
 }
